@@ -124,9 +124,10 @@ type stepT struct {
 }
 
 type lineT struct {
-	Hist []stepT `json:"hist"`
-	Next []stepT `json:"next"`
-	Full bool    `json:"full"`
+	Hist []stepT     `json:"hist"`
+	Next []stepT     `json:"next"`
+	Full bool        `json:"full"`
+	Cur  interface{} `json:"cur"`
 }
 
 func nz(c *cmdT) {
@@ -334,15 +335,18 @@ func wire(c *cmdT) (line string, literal []byte) {
 // ---------------------------------------------------------------- a live server with its connections
 
 type world struct {
-	srv    *imapserver.Server
-	ln     *vh.Listener
-	log    *vh.LogBuf
-	conns  []*vh.Raw
-	raw    []*vh.Conn
-	nconn  int
-	uvSeen map[string][]string // name -> distinct UIDVALIDITY values in order of first appearance
-	dead   string              // non-empty once a connection was lost: "PANIC" / "CLOSED" / "TIMEOUT"
-	wires  []string            // what was sent (for reports)
+	srv      *imapserver.Server
+	ln       *vh.Listener
+	log      *vh.LogBuf
+	conns    []*vh.Raw
+	raw      []*vh.Conn
+	nconn    int
+	uvSeen   map[string][]string // name -> distinct UIDVALIDITY values in order of first appearance
+	dead     string              // non-empty once a connection was lost: "PANIC" / "CLOSED" / "STALL" / "TIMEOUT"
+	ro       [8]bool             // connection's last successful selection answered [READ-ONLY]
+	stalled  bool
+	stallRaw string
+	wires    []string // what was sent (for reports)
 }
 
 func newWorld(nconn int) (*world, error) {
@@ -365,7 +369,7 @@ func newWorld(nconn int) (*world, error) {
 			return nil, err
 		}
 		r := vh.NewRaw(c)
-		r.Timeout = 20 * time.Second
+		r.Timeout = readTimeout
 		if _, err := r.ReadResp(); err != nil { // greeting
 			return nil, fmt.Errorf("greeting: %v", err)
 		}
@@ -403,6 +407,8 @@ func (w *world) lost(err error) string {
 	}
 	if w.panicked() {
 		w.dead = "PANIC"
+	} else if w.stalled {
+		w.dead = "STALL"
 	} else if os.IsTimeout(err) || strings.Contains(err.Error(), "deadline") {
 		w.dead = "TIMEOUT"
 	} else {
@@ -434,7 +440,40 @@ func (w *world) run(c int, line string, literal []byte) ([]*vh.Resp, *vh.Resp, e
 			return nil, nil, err
 		}
 	}
-	return r.Until(tag)
+	// A command the server fails to complete (error while writing the reply) leaves the
+	// client waiting for ever.  Watch the server log: when a line appears while we are
+	// still waiting, shorten the read deadline; a timeout with such a line is the
+	// observation "STALL" (no tagged completion), a timeout without one is infrastructure.
+	logLen := len(w.log.Snapshot())
+	stop := make(chan struct{})
+	go func() {
+		t := time.NewTicker(2 * time.Millisecond)
+		defer t.Stop()
+		for {
+			select {
+			case <-stop:
+				return
+			case <-t.C:
+				if len(w.log.Snapshot()) > logLen {
+					select {
+					case <-stop:
+					case <-time.After(100 * time.Millisecond):
+						w.raw[c-1].SetReadDeadline(time.Now().Add(200 * time.Millisecond))
+					}
+					return
+				}
+			}
+		}
+	}()
+	un, tg, err := r.Until(tag)
+	close(stop)
+	if err != nil && len(w.log.Snapshot()) > logLen && !w.panicked() && (os.IsTimeout(err) || strings.Contains(err.Error(), "deadline")) {
+		w.stalled = true
+		for _, x := range un {
+			w.stallRaw += strings.TrimSpace(x.Raw) + " / "
+		}
+	}
+	return un, tg, err
 }
 
 func (w *world) uvRank(name string, val string) int {
@@ -537,6 +576,17 @@ func (w *world) exec(c *cmdT) M {
 		return M{"st": w.lost(err)}
 	}
 	st := tg.Name
+	switch c.Op {
+	case "SELECT", "EXAMINE", "CLOSE", "UNSELECT":
+		w.ro[c.C] = st == "OK" && tg.Code == "READ-ONLY"
+	case "STORE", "MOVE", "EXPUNGE", "UIDEXPUNGE":
+		if w.ro[c.C] && (st == "OK" || st == "NO") && !strings.Contains(tg.Raw, "[SERVERBUG]") {
+			return M{"st": "RO"} // the effect (none) is judged by the audit
+		}
+	}
+	if strings.Contains(tg.Raw, "[SERVERBUG]") || strings.Contains(tg.Text+" "+tg.CodeArg, " "+tg.Tag+" ") {
+		return M{"st": "MALFORMED", "raw": strings.TrimSpace(tg.Raw)}
+	}
 	if st != "OK" {
 		return M{"st": st}
 	}
@@ -920,7 +970,7 @@ func runStep(w *world, s *stepT, prevAudit interface{}, done []stepT, rp *report
 	rp.mu.Unlock()
 	if w.dead == "TIMEOUT" {
 		rp.mu.Lock()
-		rp.infra = "read timeout talking to the in-process server: " + strings.Join(w.wires, " | ")
+		rp.infra = "read timeout talking to the in-process server: " + strings.Join(trimWires(w.wires), " | ") + " ; last: " + w.wires[len(w.wires)-1]
 		rp.mu.Unlock()
 		return false, expAudit
 	}
@@ -937,6 +987,8 @@ func runStep(w *world, s *stepT, prevAudit interface{}, done []stepT, rp *report
 		sig += "-panic"
 	} else if st == "CLOSED" {
 		sig += "-closed"
+	} else if st == "STALL" {
+		sig += "-stall"
 	} else if okR && !okA {
 		sig += "/audit"
 	}
@@ -946,6 +998,10 @@ func runStep(w *world, s *stepT, prevAudit interface{}, done []stepT, rp *report
 		detail = fmt.Sprintf("after [%s] command `%s`: model predicts %s, server gave %s", strings.Join(trimWires(w.wires), " | "), line, js(s.R), js(got))
 	} else {
 		detail = fmt.Sprintf("after [%s] command `%s`: result as predicted but audit differs: model %s, server %s", strings.Join(trimWires(w.wires), " | "), line, js(expAudit), js(gotAudit))
+	}
+	if w.dead == "STALL" {
+		ls := w.log.Snapshot()
+		detail += " ; no tagged completion; received: " + w.stallRaw + " server log: " + strings.SplitN(ls[len(ls)-1], "\n", 2)[0]
 	}
 	if w.dead == "PANIC" {
 		for _, l := range w.log.Snapshot() {
@@ -980,7 +1036,7 @@ func trimWires(ws []string) []string {
 }
 
 // replayTask: fresh server, prefix, then the given successors in sequence.
-func replayTask(prefix []stepT, succ []stepT, nconn int, rp *report) {
+func replayTask(prefix []stepT, succ []stepT, nconn int, cur interface{}, rp *report) {
 	w, err := newWorld(nconn)
 	if err != nil {
 		rp.mu.Lock()
@@ -1002,17 +1058,22 @@ func replayTask(prefix []stepT, succ []stepT, nconn int, rp *report) {
 		}
 		done = append(done, prefix[i])
 	}
+	if cur != nil {
+		prev = cur
+	}
 	for i := range succ {
-		ok, _ := runStep(w, &succ[i], prev, done, rp)
+		ok, a := runStep(w, &succ[i], prev, done, rp)
 		if !ok {
 			// the server may have diverged: the remaining successors get a fresh replay
 			rest := succ[i+1:]
 			if len(rest) > 0 {
-				replayTask(prefix, rest, nconn, rp)
+				replayTask(prefix, rest, nconn, cur, rp)
 			}
 			return
 		}
-		done = append(done, succ[i])
+		st := succ[i]
+		st.Audit = a
+		done = append(done, st)
 		if !succ[i].Pure {
 			return
 		}
@@ -1046,6 +1107,7 @@ func doReplay(path string, max int, seed int64, out *vh.Out) {
 		prefix []stepT
 		succ   []stepT
 		nconn  int
+		cur    interface{}
 	}
 	tasks := make(chan task, 256)
 	var wg sync.WaitGroup
@@ -1058,7 +1120,12 @@ func doReplay(path string, max int, seed int64, out *vh.Out) {
 		go func() {
 			defer wg.Done()
 			for t := range tasks {
-				replayTask(t.prefix, t.succ, t.nconn, rp)
+				rp.mu.Lock()
+				bad := rp.infra != ""
+				rp.mu.Unlock()
+				if !bad {
+					replayTask(t.prefix, t.succ, t.nconn, t.cur, rp)
+				}
 			}
 		}()
 	}
@@ -1082,7 +1149,7 @@ func doReplay(path string, max int, seed int64, out *vh.Out) {
 					break
 				}
 			}
-			tasks <- task{l.Hist, nil, nconn}
+			tasks <- task{l.Hist, nil, nconn, l.Cur}
 			return nil
 		}
 		var pure, impure []stepT
@@ -1118,17 +1185,17 @@ func doReplay(path string, max int, seed int64, out *vh.Out) {
 		}
 		const chunk = 120
 		if len(pure) == 0 && len(impure) == 0 {
-			tasks <- task{l.Hist, nil, nconn}
+			tasks <- task{l.Hist, nil, nconn, l.Cur}
 		}
 		for i := 0; i < len(pure); i += chunk {
 			j := i + chunk
 			if j > len(pure) {
 				j = len(pure)
 			}
-			tasks <- task{l.Hist, pure[i:j], nconn}
+			tasks <- task{l.Hist, pure[i:j], nconn, l.Cur}
 		}
 		for i := range impure {
-			tasks <- task{l.Hist, impure[i : i+1], nconn}
+			tasks <- task{l.Hist, impure[i : i+1], nconn, l.Cur}
 		}
 		return nil
 	})
@@ -1170,7 +1237,7 @@ func doOne(path string, out *vh.Out) {
 		return
 	}
 	rp := &report{out: out, perSig: map[string]int{}}
-	replayTask(c.Steps, nil, nconnOf(c.Steps), rp)
+	replayTask(c.Steps, nil, nconnOf(c.Steps), nil, rp)
 	sum := M{"behaviours": 1, "steps": rp.steps, "nontrivial": 0, "mismatch_counts": rp.perSig}
 	if rp.infra != "" {
 		sum["infra_error"] = rp.infra
@@ -1204,7 +1271,18 @@ func main() {
 		doOne(path, out)
 	case "random":
 		doRandom(path, *seed, *traces, *steps, out)
+	case "raw":
+		doRaw()
 	default:
 		out.Summary(M{"infra_error": "unknown mode " + mode})
 	}
 }
+
+var readTimeout = func() time.Duration {
+	if s := os.Getenv("MEMMODEL_TIMEOUT_MS"); s != "" {
+		if n, err := strconv.Atoi(s); err == nil {
+			return time.Duration(n) * time.Millisecond
+		}
+	}
+	return 20 * time.Second
+}()
